@@ -21,5 +21,13 @@ func main() {
 	}
 	out := os.Args[2]
 	os.MkdirAll(out, 0o755)
+	repo := os.Args[1]
 	writeFile(out, "Unicode.lean", genUnicode())
+	writeFile(out, "Opcodes.lean", genOpcodes(repo))
+	writeFile(out, "Tokens.lean", genTokens(repo))
+	writeFile(out, "LexerTables.lean", genLexer(repo))
+	writeFile(out, "ParserTables.lean", genParser(repo))
+	writeFile(out, "CompilerTables.lean", genCompiler(repo))
+	writeFile(out, "Builtins.lean", genBuiltins(repo))
+	writeFile(out, "TypeFacts.lean", genTypesFacts(repo))
 }
